@@ -139,7 +139,7 @@ pub fn gen_hunks_for(ch: &mut Chooser, file: &[B], k: usize, max_hunks: usize) -
                 lines.push(HLine { tag: b'+', text: B::new("a\n") });
             }
             // keep '-' before '+' inside change blocks
-            let tmp = HHunk { old_start: 0, new_start: 0, lines, omit_count_one: false, func: None, bare_empty_ctx: false };
+            let tmp = HHunk { old_start: 0, new_start: 0, lines, omit_count_one: false, func: None, bare_empty_ctx: false, localised_marker: false };
             lines = tmp.reversed().reversed().lines;
         }
         let delta: i64 = match ch.weighted(&[6, 2, 1, 1]) {
@@ -151,7 +151,7 @@ pub fn gen_hunks_for(ch: &mut Chooser, file: &[B], k: usize, max_hunks: usize) -
         let old_cnt = lines.iter().filter(|l| l.tag != b'+').count();
         let base = if old_cnt == 0 { w as i64 } else { w as i64 + 1 };
         let old_start = (base + delta).max(0) as u64;
-        specs.push((w, HHunk { old_start, new_start: 0, lines, omit_count_one: ch.chance(1, 2), func: None, bare_empty_ctx: false }));
+        specs.push((w, HHunk { old_start, new_start: 0, lines, omit_count_one: ch.chance(1, 2), func: None, bare_empty_ctx: false, localised_marker: false }));
     }
     if !shuffled {
         specs.sort_by_key(|(w, _)| *w);
@@ -287,7 +287,7 @@ fn sweep_c02(env: &Env, sink: &mut dyn FnMut(PlaceCase) -> bool) -> (u64, bool) 
                                         count += 1;
                                         let case = PlaceCase {
                                             file: file.clone(),
-                                            hunks: vec![HHunk { old_start, new_start, lines: lines.clone(), omit_count_one: false, func: None, bare_empty_ctx: false }],
+                                            hunks: vec![HHunk { old_start, new_start, lines: lines.clone(), omit_count_one: false, func: None, bare_empty_ctx: false, localised_marker: false }],
                                             reverse: false,
                                             fuzz,
                                             fuzz2: fuzz + 1,
